@@ -70,7 +70,7 @@ specs = {
          "all strings of length 1-4 (quick) / 1-5 (thorough) over {e . = A - 0x80}; 12x10x8 header/payload/signature part grid; random strings over a token alphabet and over all bytes; random edits of real tokens; 1k-64k inputs; x checkers {no key, oct, RSA, P-256, Ed25519}; independent well-formedness predicate as falsifier", False),
     ])'''),
  "c09": dict(doc="C09 -- key-strength floor (verification side): theorems + boundary-exhaustive strength suite.",
-   mods=["Jwt.Props.C09"], files=["Jwt/Props/C09.lean"], gen=0,
+   mods=["Jwt.Props.C09"], files=["Jwt/Props/C09.lean"], gen=1,
    level="Lean theorems for every bits:Nat: the gates pass exactly per the documented floor table; every primitive call made by verification satisfies it (trace); acceptance implies it; the gate is live at/above the floor; the same for signing (generate). Tied to the code by every oct length 1-160 x HS256/384/512 and every generated RSA/EC/OKP key x every public-key algorithm with oracle-signed tokens.",
    assume=[],
    body='''    extra = {"rsa1024": K.gen_key("rsa", 1024, ctx.scratch), "rsa2047": K.gen_key("rsa", 2047, ctx.scratch),
